@@ -5,12 +5,12 @@ Require Import JF.Model.Occupancy.
 Import ListNotations.
 
 (** ** Generic list facts *)
+Lemma flat_map_map {A B C} (f : B -> list C) (g : A -> B) (l : list A) :
+  flat_map f (map g l) = flat_map (fun x => f (g x)) l.
+Proof. induction l; simpl; congruence. Qed.
+
 Section ListFacts.
   Context {A B : Type}.
-
-  Lemma flat_map_map (f : B -> list A) (g : A -> B) (l : list A) :
-    flat_map f (map g l) = flat_map (fun x => f (g x)) l.
-  Proof. induction l; simpl; congruence. Qed.
 
   Lemma flat_map_ext_in (f g : A -> list B) (l : list A) :
     (forall x, In x l -> f x = g x) -> flat_map f l = flat_map g l.
@@ -791,6 +791,15 @@ Section Inv.
   Qed.
 End Inv.
 
+Arguments recorded {cell id}.
+Arguments is_active {cell id}.
+Arguments others {cell id}.
+Arguments st_wf {cell id}.
+Arguments occ_inv {cell id}.
+Arguments where_ok {cell id}.
+Arguments units_of {cell id}.
+Arguments update_norefill {cell id}.
+
 (** ** C10: the cell taggers partition the other relevant units *)
 Section Partition.
   Variables cell id : Type.
@@ -920,7 +929,7 @@ Section Partition.
     cell_veto_targets cell_eqb cs s = flat_map (occ_of s) (map (cs_translate cs ac) (veto_domain cell_eqb cs)).
   Proof.
     intros Ec Ea. unfold cell_veto_targets, yield_active_cells. rewrite Ec, Ea. simpl. rewrite app_nil_r.
-    rewrite (flat_map_map (occ_of s) (cs_translate cs ac)). reflexivity.
+    rewrite flat_map_map. reflexivity.
   Qed.
 
   Lemma bounding_targets_eq (s : state) ac a : active_cell s = Some ac -> active_id s = Some a ->
@@ -979,7 +988,7 @@ Section Partition.
     Permutation (bounding_targets cell_eqb cs s ++ nearby_targets cell_eqb cs s ++ surplus_targets s)
                 (others id_eqb s units).
   Proof.
-    intros I Ea. rewrite (cell_bounding_same_targets s a I Ea). apply cells_partition; auto.
+    intros I Ea. rewrite (cell_bounding_same_targets s a I Ea). apply (cells_partition s a); auto.
   Qed.
 
   (** nobody twice, nobody missed, stated element-wise *)
@@ -1036,3 +1045,134 @@ Section Partition.
     - destruct (active_cell s); [|contradiction]. destruct Act as [_ ->]; auto.
   Qed.
 End Partition.
+
+Arguments cellsys_ok {cell}.
+Arguments not_nearby {cell}.
+
+(** ** [cellsys_ok] is decidable for a concrete cell system *)
+Section Decide.
+  Variable cell : Type.
+  Variable cell_eqb : cell -> cell -> bool.
+  Hypothesis cell_eqb_spec : forall a b, cell_eqb a b = true <-> a = b.
+
+  Fixpoint nodup_b (l : list cell) : bool :=
+    match l with [] => true | x :: r => negb (mem_cell cell_eqb x r) && nodup_b r end.
+
+  Lemma nodup_b_spec l : nodup_b l = true -> NoDup l.
+  Proof.
+    induction l as [|x r IH]; simpl; intros H; [constructor|].
+    apply andb_true_iff in H. destruct H as [H1 H2]. constructor; auto.
+    apply negb_true_iff in H1. apply (mem_cell_false _ cell_eqb cell_eqb_spec) in H1. auto.
+  Qed.
+
+  Definition cellsys_ok_b (cs : cellsys cell) : bool :=
+    let cells := cs_cells cs in
+    let mem := mem_cell cell_eqb in
+    nodup_b cells
+    && mem (cs_zero cs) cells
+    && forallb (fun c => nodup_b (cs_nearby cs c) && forallb (fun c' => mem c' cells) (cs_nearby cs c)) cells
+    && forallb (fun a => forallb (fun r =>
+          mem (cs_translate cs a r) cells
+          && mem (cs_relative cs r a) cells
+          && cell_eqb (cs_translate cs a (cs_relative cs r a)) r
+          && cell_eqb (cs_relative cs (cs_translate cs a r) a) r
+          && Bool.eqb (mem (cs_translate cs a r) (cs_nearby cs a)) (mem r (cs_nearby cs (cs_zero cs)))) cells) cells
+    && forallb (fun c => cell_eqb (cs_relative cs c (cs_zero cs)) c) cells.
+
+  Theorem cellsys_ok_b_sound cs : cellsys_ok_b cs = true -> cellsys_ok cs.
+  Proof.
+    unfold cellsys_ok_b. intros H.
+    repeat (apply andb_true_iff in H; let H' := fresh "H" in destruct H as [H H']).
+    rename H into Hnd, H3 into Hz, H2 into Hnear, H1 into Hpair, H0 into Hrz.
+    pose proof (mem_cell_spec _ cell_eqb cell_eqb_spec) as MS.
+    assert (Hp : forall a r, In a (cs_cells cs) -> In r (cs_cells cs) ->
+       In (cs_translate cs a r) (cs_cells cs) /\ In (cs_relative cs r a) (cs_cells cs)
+       /\ cs_translate cs a (cs_relative cs r a) = r /\ cs_relative cs (cs_translate cs a r) a = r
+       /\ (In (cs_translate cs a r) (cs_nearby cs a) <-> In r (cs_nearby cs (cs_zero cs)))).
+    { intros a r Ha Hr. rewrite forallb_forall in Hpair. specialize (Hpair a Ha).
+      rewrite forallb_forall in Hpair. specialize (Hpair r Hr).
+      repeat (apply andb_true_iff in Hpair; let H' := fresh "P" in destruct Hpair as [Hpair H']).
+      repeat split; try (apply MS; assumption); try (apply cell_eqb_spec; assumption).
+      - intros Hx. apply MS in Hx. apply Bool.eqb_prop in P. rewrite Hx in P. apply MS. auto.
+      - intros Hx. apply MS in Hx. apply Bool.eqb_prop in P. rewrite Hx in P. apply MS. auto. }
+    constructor.
+    - apply nodup_b_spec; auto.
+    - apply MS; auto.
+    - intros c Hc. rewrite forallb_forall in Hnear. specialize (Hnear c Hc).
+      apply andb_true_iff in Hnear. apply nodup_b_spec; tauto.
+    - intros c c' Hc Hc'. rewrite forallb_forall in Hnear. specialize (Hnear c Hc).
+      apply andb_true_iff in Hnear. destruct Hnear as [_ Hn]. rewrite forallb_forall in Hn. apply MS; auto.
+    - intros a r Ha Hr. apply (Hp a r); auto.
+    - intros c a Hc Ha. apply (Hp a c); auto.
+    - intros a c Ha Hc. apply (Hp a c); auto.
+    - intros a r Ha Hr. apply (Hp a r); auto.
+    - intros a r Ha Hr. apply (Hp a r); auto.
+    - intros c Hc. rewrite forallb_forall in Hrz. apply cell_eqb_spec; auto.
+  Qed.
+End Decide.
+
+Lemma list_Z_eqb_spec a b : list_Z_eqb a b = true <-> a = b.
+Proof.
+  revert b. induction a as [|x a IH]; destruct b as [|y b]; simpl; split; intros H; try discriminate; auto.
+  - apply andb_true_iff in H. destruct H as [H1 H2]. apply Z.eqb_eq in H1. apply IH in H2. subst; auto.
+  - inversion H; subst. rewrite Z.eqb_refl. simpl. apply IH; auto.
+Qed.
+
+(** ** A concrete, non-trivial instance (used by the non-vacuity examples of Props/C10.v and Props/C11.v):
+    5 cells on a ring, one neighbour layer, occupant limit 1, six units, three of them in the same cell. *)
+Module OccExample.
+  Open Scope Z_scope.
+  Definition cs5 : cellsys (list Z) := torus_cs [5] 1.
+  Definition us : list (list Z * list Z * bool) :=
+    [([0], [0], true); ([1], [0], true); ([2], [2], true); ([3], [3], true); ([4], [0], true); ([5], [1], true);
+     ([6], [4], false)].
+  Definition units : list (list Z) := units_of us.
+  Definition cellof (u : list Z) : list Z :=
+    match find (fun x => list_Z_eqb (fst (fst x)) u) us with Some x => snd (fst x) | None => [0] end.
+  Definition lim : option nat := limit_of_max 1.
+
+  Lemma cs5_ok : cellsys_ok cs5.
+  Proof. apply (cellsys_ok_b_sound _ list_Z_eqb list_Z_eqb_spec). vm_compute. reflexivity. Qed.
+
+  Lemma units_nodup : NoDup units.
+  Proof. apply (nodup_b_spec _ list_Z_eqb list_Z_eqb_spec). vm_compute. reflexivity. Qed.
+
+  Lemma cellof_valid : forall u, In u units -> In (cellof u) (cs_cells cs5).
+  Proof.
+    intros u H. vm_compute in H.
+    repeat (destruct H as [<-|H]; [vm_compute; tauto|]). contradiction.
+  Qed.
+
+  Lemma us_ok : forall u c r, In (u, c, r) us -> In c (cs_cells cs5) /\ cellof u = c.
+  Proof.
+    intros u c r H. unfold us in H.
+    repeat (destruct H as [H|H]; [inversion H; subst; vm_compute; tauto|]). contradiction.
+  Qed.
+
+  (** the state after initialize *)
+  Definition s0 : state (list Z) (list Z) :=
+    match initialize list_Z_eqb (cs_cells cs5) lim us with Ok s => s | Err _ => init_state [] None end.
+  (** ... and after unit (0,) has become active *)
+  Definition s1 : state (list Z) (list Z) :=
+    match update list_Z_eqb list_Z_eqb s0 [0] true [0] with Ok s => s | Err _ => s0 end.
+
+  Lemma s0_inv : occ_inv list_Z_eqb list_Z_eqb (cs_cells cs5) s0 units cellof.
+  Proof.
+    destruct (init_inv _ _ list_Z_eqb list_Z_eqb list_Z_eqb_spec (cs_cells cs5) (ok_cells_nodup _ _ cs5_ok) lim us cellof us_ok)
+      as (s & E & I & _).
+    unfold s0. rewrite E. exact I.
+  Qed.
+
+  Lemma s1_inv : occ_inv list_Z_eqb list_Z_eqb (cs_cells cs5) s1 units cellof.
+  Proof.
+    destruct (update_inv _ _ list_Z_eqb list_Z_eqb list_Z_eqb_spec list_Z_eqb_spec (cs_cells cs5)
+                (ok_cells_nodup _ _ cs5_ok) units cellof cellof units_nodup cellof_valid s0 [0] true [0] s0_inv)
+      as (s & E & I); auto.
+    - split; auto. intros _. vm_compute. auto.
+    - intros a H. vm_compute in H. discriminate.
+    - unfold s1. rewrite E. exact I.
+  Qed.
+
+  Lemma s1_active : active_id s1 = Some [0] /\ active_cell s1 = Some [0].
+  Proof. vm_compute. auto. Qed.
+End OccExample.
